@@ -71,7 +71,11 @@ type c19Cfg struct {
 	// as close(2) does; what Close returns is then the implementation's business, what it leaves open
 	// is not. (Added after the independently seeded change C19-7: Close returned at the first socket
 	// close error, before closing the other socket and before marking the conn closed.)
-	closeErrs            bool
+	closeErrs bool
+	// serverHost: the server's IP literal as written in the configuration ("" = 10.9.8.7). "Goes to
+	// the server IP" holds for an IPv6 server as well (added after the independently seeded change
+	// C19-8: the address list was built from IP.To4(), nil for a genuine IPv6 address).
+	serverHost           string
 	portKind, jitterKind vsched.ChoiceKind
 	quick, thorough      explore.Bounds
 }
@@ -82,9 +86,10 @@ type c19Inj struct {
 }
 
 type c19World struct {
-	e   *vsched.Exec
-	cfg *c19Cfg
-	set map[int]bool // configured server ports
+	e        *vsched.Exec
+	cfg      *c19Cfg
+	serverIP net.IP
+	set      map[int]bool // configured server ports
 
 	socks       []*vnet.PacketConn // every socket ever created, in creation order
 	listenCalls int
@@ -156,8 +161,8 @@ func (w *c19World) onSend(idx int, p vnet.Packet) {
 	switch {
 	case !ok:
 		w.e.Fail("packet %q sent to %T %v, not a UDP address of the server", p.Data, p.Addr, p.Addr)
-	case !ua.IP.Equal(c19HopServerIP):
-		w.e.Fail("packet %q sent to IP %v, server IP is %v", p.Data, ua.IP, c19HopServerIP)
+	case !ua.IP.Equal(w.serverIP):
+		w.e.Fail("packet %q sent to IP %v, server IP is %v", p.Data, ua.IP, w.serverIP)
 	case !w.set[ua.Port]:
 		w.e.Fail("packet %q sent to port %d which is not in the configured set %s", p.Data, ua.Port, w.cfg.portExpr)
 	default:
@@ -204,7 +209,7 @@ func (w *c19World) inject(tag string, idx int) {
 	}
 	w.seq++
 	payload := fmt.Sprintf("%s%d@s%d", tag, w.seq, idx)
-	w.socks[idx].Inject([]byte(payload), &net.UDPAddr{IP: c19HopServerIP, Port: 20000})
+	w.socks[idx].Inject([]byte(payload), &net.UDPAddr{IP: w.serverIP, Port: 20000})
 	w.injected = append(w.injected, c19Inj{payload, idx})
 	w.injectedSet[payload] = true
 }
@@ -321,7 +326,7 @@ func (w *c19World) afterClose() {
 	}
 	// packets arriving now must never be returned
 	for i, s := range w.socks {
-		s.Inject([]byte(fmt.Sprintf("late@s%d", i)), &net.UDPAddr{IP: c19HopServerIP, Port: 20000})
+		s.Inject([]byte(fmt.Sprintf("late@s%d", i)), &net.UDPAddr{IP: w.serverIP, Port: 20000})
 	}
 	e.WaitIdle()
 	w.write("post-close-", w.conn.Addr)
@@ -380,7 +385,12 @@ func c19Body(cfg *c19Cfg) func(e *vsched.Exec) {
 			e.Fail("unexpected random draw %s bound %d", tag, bound)
 			return 0
 		})
-		addr, err := ResolveUDPHopAddr("10.9.8.7:" + cfg.portExpr)
+		host := "10.9.8.7"
+		if cfg.serverHost != "" {
+			host = cfg.serverHost
+		}
+		w.serverIP = net.ParseIP(strings.Trim(host, "[]"))
+		addr, err := ResolveUDPHopAddr(host + ":" + cfg.portExpr)
 		if err != nil {
 			e.Fail("ResolveUDPHopAddr(%s): %v", cfg.portExpr, err)
 			return
@@ -589,6 +599,15 @@ func c19Scenarios() []*explore.Scenario {
 			reader: true, poller: true,
 			portKind: vsched.KEnv, jitterKind: vsched.KEnv,
 			quick: explore.Bounds{P: 1, E: 1}, thorough: explore.Bounds{P: 2, E: 2, MaxExec: 600000}},
+		// an IPv6 server, and an IPv4 server written in IPv4-mapped form
+		{name: "hop-rw-ipv6-server-2ports", portExpr: "20000,20002", iv: fixed, window: 5500 * time.Millisecond, windows: 2,
+			writer: true, reader: true, injector: true, serverHost: "[2001:db8::53]",
+			portKind: vsched.KEnv, jitterKind: vsched.KEnv,
+			quick: explore.Bounds{P: 1, E: 1}, thorough: explore.Bounds{P: 2, E: 2, MaxExec: 600000}},
+		{name: "hop-rw-ipv4-mapped-server-2ports", portExpr: "20000,20002", iv: fixed, window: 5500 * time.Millisecond, windows: 2,
+			writer: true, reader: true, serverHost: "[::ffff:10.9.8.7]",
+			portKind: vsched.KEnv, jitterKind: vsched.KEnv,
+			quick: explore.Bounds{P: 0, E: 1}, thorough: explore.Bounds{P: 1, E: 1, MaxExec: 600000}},
 		// a socket's Close reports an error at shutdown
 		{name: "hop-close-errors-3ports", portExpr: "20000-20002", iv: fixed, window: 5500 * time.Millisecond, windows: 2,
 			writer: true, reader: true, closeErrs: true,
